@@ -258,14 +258,19 @@ Section Listing.
     if (m_of i rq <? length (rest_of rq))%nat
     then c_lt :: render i rq (mkUrl (u_path rq) (link_query i rq)) ++ c_gt :: trailer i
     else [].
-  Proof. reflexivity. Qed.
+  Proof.
+    unfold rs_link, serve, reg_serve, reg_page. cbn [rs_links].
+    fold (rest_of rq). fold (m_of i rq). unfold link_query.
+    destruct (m_of i rq <? length (rest_of rq))%nat; reflexivity.
+  Qed.
 
   Lemma handle_serve i rq :
     (Z.of_N (d_doc_len (ds i)) <= eff_limit (c_limit c))%Z ->
     (c_kind c = KReferrers -> qget_s k_at (u_query rq) = c_at c) ->
     handle c (serve i rq) = inr (view (firstn (m_of i rq) (rest_of rq))).
   Proof.
-    intros Hfit Hat. unfold handle, serve, reg_serve, reg_page, body_fits. cbn [rs_status rs_ctype_ok rs_json_ok rs_doc_len rs_items rs_fhdr rs_fann].
+    intros Hfit Hat. unfold handle, serve, reg_serve, reg_page, body_fits. unfold ctype_bad. cbn [rs_status rs_ctype rs_json_ok rs_doc_len rs_items rs_fhdr rs_fann].
+    rewrite str_eqb_refl.
     fold (rest_of rq). fold (m_of i rq).
     change (200 =? 200) with true. cbn [negb].
     assert (F : (Z.of_N (d_doc_len (ds i)) <=? eff_limit (c_limit c))%Z = true) by (apply Z.leb_le; exact Hfit).
@@ -290,7 +295,7 @@ Section Listing.
   Lemma handle_serve_oversize i rq : ~ fits i -> handle c (serve i rq) = inl ErrDecode.
   Proof.
     intro Hn. unfold handle, serve, reg_serve, reg_page, body_fits.
-    cbn [rs_status rs_ctype_ok rs_json_ok rs_doc_len].
+    unfold ctype_bad. cbn [rs_status rs_ctype rs_json_ok rs_doc_len]. rewrite str_eqb_refl.
     change (200 =? 200) with true. cbn [negb andb].
     assert (F : (Z.of_N (d_doc_len (ds i)) <=? eff_limit (c_limit c))%Z = false) by (apply Z.leb_gt; unfold fits in Hn; lia).
     rewrite F. cbn [negb]. destruct (c_kind c); reflexivity.
@@ -520,8 +525,10 @@ Section ClientFacts.
   Lemma handle_err rs e : handle c rs = inl e -> e <> ErrCallback.
   Proof.
     unfold handle. intro H.
-    destruct (negb (rs_status rs =? 200)); [injection H as <-; discriminate|].
-    destruct (match c_kind c with KReferrers => negb (rs_ctype_ok rs) | _ => false end);
+    destruct (negb (rs_status rs =? 200)).
+    { injection H as <-. unfold status_error. destruct (c_kind c); try discriminate.
+      destruct ((rs_status rs =? 404) && negb (rs_name_unknown rs)); discriminate. }
+    destruct (ctype_bad c rs);
       [injection H as <-; discriminate|].
     destruct (negb (body_fits c rs)); [injection H as <-; discriminate|].
     destruct (c_kind c); try discriminate.
@@ -537,7 +544,7 @@ Section ClientFacts.
   Proof.
     unfold handle. intro H.
     destruct (negb (rs_status rs =? 200)); [discriminate|].
-    destruct (match c_kind c with KReferrers => negb (rs_ctype_ok rs) | _ => false end); [discriminate|].
+    destruct (ctype_bad c rs); [discriminate|].
     destruct (body_fits c rs) eqn:F; [|discriminate].
     unfold body_fits in F. apply andb_true_iff in F as [F1 F2]. apply Z.leb_le in F2. auto.
   Qed.
@@ -856,8 +863,10 @@ Qed.
 Lemma handle_not_done c rs : handle c rs <> inl Done.
 Proof.
   unfold handle.
-  destruct (negb (rs_status rs =? 200)); [discriminate|].
-  destruct (match c_kind c with KReferrers => negb (rs_ctype_ok rs) | _ => false end); [discriminate|].
+  destruct (negb (rs_status rs =? 200)).
+  { unfold status_error. destruct (c_kind c); try discriminate.
+    destruct ((rs_status rs =? 404) && negb (rs_name_unknown rs)); discriminate. }
+  destruct (ctype_bad c rs); [discriminate|].
   destruct (negb (body_fits c rs)); [discriminate|].
   destruct (c_kind c); try discriminate.
   destruct (is_empty (c_at c)); try discriminate.
@@ -1014,4 +1023,227 @@ Proof.
   - left. cbv zeta. rewrite E. auto.
   - right. cbv zeta. split; [exact O1|]. rewrite P1. rewrite <- P.
     eexists. apply concat_firstn_skipn.
+Qed.
+
+(* ---------- Repository.Referrers: capability detection ---------- *)
+
+Lemma wrap_spec st cbu (api : trace) ts :
+  let w := referrers_wrap st cbu api ts in
+  ((w_fell_back w = false /\ w_pages w = t_pages api /\ w_out w = t_out api) \/
+   (w_fell_back w = true /\ w_pages w = fst (ts 0%nat) /\ w_out w = snd (ts 0%nat) /\
+    (st = RUnknown -> t_pages api = [] /\ unsupported_class cbu (t_out api) = true))) /\
+  (st <> RUnknown -> w_state w = st) /\
+  (st = RUnknown ->
+     (w_state w = RSupported <-> t_out api = Done) /\
+     (w_state w = RUnsupported <-> w_fell_back w = true) /\
+     (w_state w = RUnknown <-> (t_out api <> Done /\ w_fell_back w = false))) /\
+  (st = RUnsupported -> w_fell_back w = true) /\
+  (st = RSupported -> w_fell_back w = false).
+Proof.
+  unfold referrers_wrap. destruct st.
+  - (* unknown *)
+    assert (NP : no_pages api = true -> t_pages api = []).
+    { unfold no_pages. destruct (t_pages api); [reflexivity|discriminate]. }
+    destruct (t_out api) eqn:O; cbn [unsupported_class andb];
+      try (destruct cbu; cbn [andb]); try destruct (no_pages api) eqn:N;
+      cbn [w_fell_back w_pages w_out w_state];
+      (split; [first [left; repeat split; reflexivity | right; repeat split; auto] |]);
+      (split; [intro H; exfalso; now apply H|]);
+      (split; [intros _; repeat split; intros; try discriminate; try reflexivity; try tauto;
+               try (destruct H; discriminate); try (destruct H; congruence) |]);
+      split; intro; discriminate.
+  - cbn [w_fell_back w_pages w_out w_state]. split; [left; auto|].
+    split; [reflexivity|]. split; [discriminate|]. split; [discriminate|reflexivity].
+  - cbn [w_fell_back w_pages w_out w_state]. split; [right; repeat split; discriminate|].
+    split; [reflexivity|]. split; [discriminate|]. split; [reflexivity|discriminate].
+Qed.
+
+(* a failing callback is the result of Referrers and nothing is delivered after it *)
+Lemma wrap_callback_error serve resolve cb_fail c fuel u st cbu ts :
+  st <> RUnsupported ->
+  let api := loop serve resolve cb_fail c fuel 0 0 u [] in
+  t_out api = ErrCallback ->
+  let w := referrers_wrap st cbu api ts in
+  w_out w = ErrCallback /\ w_pages w = t_pages api /\ w_fell_back w = false.
+Proof.
+  intros Hst api O. cbv zeta.
+  pose proof (loop_calls serve resolve c cb_fail fuel 0%nat 0%nat u []) as C. cbv zeta in C.
+  fold api in C. rewrite O in C.
+  unfold referrers_wrap. destruct st; [|auto|contradiction].
+  rewrite O. cbn [unsupported_class]. unfold no_pages.
+  destruct (t_pages api) as [|p ps]; [simpl in C; contradiction|].
+  rewrite andb_false_r. auto.
+Qed.
+
+(* Content-Type: compared verbatim with the index media type *)
+Lemma handle_ctype c rs :
+  c_kind c = KReferrers -> rs_status rs = 200 ->
+  (rs_ctype rs <> mediaTypeImageIndex -> handle c rs = inl ErrCType) /\
+  (forall p, handle c rs = inr p -> rs_ctype rs = mediaTypeImageIndex).
+Proof.
+  intros K S. unfold handle, ctype_bad. rewrite S, K. change (200 =? 200) with true. cbn [negb]. split.
+  - intro H. now rewrite (str_eqb_neq _ _ H).
+  - intros p H. destruct (str_eqb (rs_ctype rs) mediaTypeImageIndex) eqn:E; [now apply str_eqb_spec|discriminate].
+Qed.
+
+(* a 404 of the referrers endpoint is "unsupported" unless it says NAME_UNKNOWN *)
+Lemma handle_404 c rs :
+  c_kind c = KReferrers -> rs_status rs = 404 ->
+  handle c rs = inl (if rs_name_unknown rs then ErrStatus else ErrUnsupported).
+Proof.
+  intros K S. unfold handle, status_error. rewrite S, K. simpl. now destruct (rs_name_unknown rs).
+Qed.
+
+(* ---------- witnesses (History): what the code did before the fix / does for rel="first" ---------- *)
+
+Definition wit_L : list item := [(b "a", b "t"); (b "b", b "t"); (b "c", b "t")].
+Definition wit_ds (i : nat) : decision := mkDec 1 [] false [] [] 10 0.
+Definition wit_render (i : nat) (base tgt : url) : str := qget_s k_last (u_query tgt).
+Definition wit_resolve (base : url) (t : str) : option url := Some (link_target (wit_ds 0) base t).
+Definition wit_cfg : cfg := mkCfg KReferrers 0 0 [].
+Definition wit_u : url := mkUrl (b "/v2/r/referrers/d") [].
+Definition wit_ts (cb_fail : nat -> bool) (k : nat) :=
+  tag_schema 0 true 100 wit_L [] (fun j => cb_fail (k + j)%nat).
+
+(* before the fix: the callback fails on its first invocation with an error of the
+   unsupported class; Referrers swallowed it, ran the tag schema, invoked the callback again
+   (same referrer "a" delivered twice) and returned success *)
+Lemma wrap_prefix_refuted :
+  exists (cb_fail : nat -> bool),
+    let api := loop (reg_serve KReferrers wit_L 5 wit_ds wit_render (fun _ => [])) wit_resolve
+                    cb_fail wit_cfg 9 0 0 wit_u [] in
+    let w := referrers_wrap_prefix RUnknown true api (wit_ts cb_fail) in
+    t_out api = ErrCallback /\ w_out w = Done /\ w_state w = RUnsupported /\
+    ~ NoDup (map fst (concat (w_pages w))).
+Proof.
+  exists (fun k => (k =? 0)%nat). vm_compute. repeat split; try reflexivity.
+  intro H. inversion H as [|x l Hn _]; subst. apply Hn. simpl. auto.
+Qed.
+
+(* the same scenario with the fixed wrapper *)
+Lemma wrap_fixed_witness :
+  let cb_fail := fun k => (k =? 0)%nat in
+  let api := loop (reg_serve KReferrers wit_L 5 wit_ds wit_render (fun _ => [])) wit_resolve
+                  cb_fail wit_cfg 9 0 0 wit_u [] in
+  let w := referrers_wrap RUnknown true api (wit_ts cb_fail) in
+  w_out w = ErrCallback /\ w_state w = RUnknown /\ map (map fst) (w_pages w) = [[b "a"]].
+Proof. vm_compute. repeat split. Qed.
+
+(* a registry that is legal per RFC 8288 but puts a rel="first" link-value before the next
+   link: the client follows the first link-value, re-reads the first page and never ends *)
+Definition relfirst_serve (i : nat) (rq : url) : response :=
+  let rs := reg_serve KTags wit_L 5 wit_ds wit_render (fun _ => b "; rel=""next""") i rq in
+  match rs_links rs with
+  | [] => rs
+  | l :: more =>
+    mkResp (rs_status rs) (rs_name_unknown rs) (rs_ctype rs) (rs_json_ok rs) (rs_doc_len rs) (rs_total_len rs)
+           (rs_items rs) ((b "<>; rel=""first"", " ++ l) :: more) (rs_fhdr rs) (rs_fann rs)
+  end.
+
+Lemma link_rel_first_refuted :
+  exists fuel,
+    let t := loop relfirst_serve wit_resolve (fun _ => false) (mkCfg KTags 0 0 []) fuel 0 0
+                  (mkUrl (b "/v2/r/tags/list") []) [] in
+    t_out t = OutOfFuel /\ ~ NoDup (map fst (concat (t_pages t))) /\
+    (* although every response carried the right next link *)
+    (forall rq, In rq (t_reqs t) -> exists pre, rs_link (relfirst_serve 0 rq) =
+         pre ++ c_lt :: b "a" ++ c_gt :: b "; rel=""next""").
+Proof.
+  exists 4%nat. cbv zeta. split; [vm_compute; reflexivity|]. split.
+  - vm_compute. intro H. inversion H as [|x l Hn _]; subst. apply Hn. simpl. auto.
+  - intros rq H. vm_compute in H.
+    repeat (destruct H as [<-|H]; [exists (b "<>; rel=""first"", "); vm_compute; reflexivity|]).
+    contradiction.
+Qed.
+
+(* ---------- pingReferrers ---------- *)
+
+Ltac ping_fin :=
+  repeat split; intros; try discriminate; try tauto; auto;
+  try (match goal with H : _ \/ _ |- _ => destruct H; discriminate end);
+  try (match goal with H : _ /\ _ |- _ => destruct H; contradiction end).
+
+(* a known capability is returned as is; from the unknown state the answer "unsupported" is
+   given exactly for the responses that Referrers itself reads as "no referrers API", and
+   "supported" only for responses it accepts as referrers responses *)
+Lemma ping_spec st rs c :
+  c_kind c = KReferrers ->
+  (st = RSupported -> ping st rs = (st, Some true)) /\
+  (st = RUnsupported -> ping st rs = (st, Some false)) /\
+  (st = RUnknown ->
+     (snd (ping st rs) = Some false <->
+        (handle c rs = inl ErrUnsupported \/ handle c rs = inl ErrCType)) /\
+     (snd (ping st rs) = Some true <-> (rs_status rs = 200 /\ rs_ctype rs = mediaTypeImageIndex)) /\
+     (fst (ping st rs) = RUnsupported <-> snd (ping st rs) = Some false) /\
+     (fst (ping st rs) = RSupported <-> snd (ping st rs) = Some true) /\
+     (fst (ping st rs) = RUnknown <-> snd (ping st rs) = None)).
+Proof.
+  intro K. split; [intros ->; reflexivity|]. split; [intros ->; reflexivity|]. intros ->.
+  unfold ping, handle, status_error, ctype_bad. rewrite K.
+  destruct (rs_status rs =? 200) eqn:S2.
+  - apply N.eqb_eq in S2. cbn [negb].
+    destruct (str_eqb (rs_ctype rs) mediaTypeImageIndex) eqn:E; cbn [negb fst snd].
+    + apply str_eqb_spec in E.
+      destruct (negb (body_fits c rs));
+        [|destruct (is_empty (c_at c));
+          [|destruct (is_filter_applied (rs_fhdr rs) filterTypeArtifactType
+                      || is_filter_applied (rs_fann rs) filterTypeArtifactType)]]; ping_fin.
+    + assert (N : rs_ctype rs <> mediaTypeImageIndex) by (intro H; rewrite H, str_eqb_refl in E; discriminate).
+      ping_fin.
+  - cbn [negb]. assert (N2 : rs_status rs <> 200) by (intro H; rewrite H in S2; discriminate).
+    destruct (rs_status rs =? 404) eqn:S4; cbn [andb].
+    + destruct (rs_name_unknown rs); cbn [negb fst snd]; ping_fin.
+    + cbn [fst snd]. ping_fin.
+Qed.
+
+(* ---------- Referrers end to end ---------- *)
+
+(* unknown capability, registry with the referrers API: the listing of C15_filter, and the
+   capability becomes "supported" *)
+Theorem referrers_unknown_with_api :
+  forall (L : list item) (cap : nat) (ds : nat -> decision)
+         (render : nat -> url -> url -> str) (trailer : nat -> str)
+         (resolve : url -> str -> option url) (c : cfg) (path : str) (fuel : nat) cbu ts,
+    c_kind c = KReferrers ->
+    NoDup (map fst L) -> (forall it, In it L -> fst it <> []) ->
+    (forall i base x, In x (map fst L) ->
+       contains c_gt (render i base (link_target (ds i) base x)) = false) ->
+    (forall i base x, In x (map fst L) ->
+       resolve base (render i base (link_target (ds i) base x)) = Some (link_target (ds i) base x)) ->
+    (forall i, (Z.of_N (d_doc_len (ds i)) <= eff_limit (c_limit c))%Z) ->
+    (forall i, qget k_at (d_extra (ds i)) = None) ->
+    (length L < fuel)%nat ->
+    let api := loop (reg_serve KReferrers L cap ds render trailer) resolve (fun _ => false) c
+                    fuel 0 0 (mkUrl path (referrers_query (c_at c))) [] in
+    let w := referrers_wrap RUnknown cbu api ts in
+    w_out w = Done /\ concat (w_pages w) = filter_referrers L (c_at c) /\
+    w_state w = RSupported /\ w_fell_back w = false.
+Proof.
+  intros L cap ds render trailer resolve c path fuel cbu ts K Hnd Hne Hgt Hres Hfit Hex Hfuel.
+  destruct (referrers_exactly_once L cap ds render trailer resolve c path fuel K Hnd Hne Hgt Hres Hfit Hex Hfuel)
+    as (O & P & _).
+  cbv zeta. unfold referrers_wrap. rewrite O. cbn [w_out w_pages w_state w_fell_back]. auto.
+Qed.
+
+(* unknown capability, registry without the referrers API (every request answered 404
+   without NAME_UNKNOWN) that holds the referrers index under the referrers tag: one request
+   to the API, then the tag schema; the capability becomes "unsupported" *)
+Theorem referrers_unknown_without_api :
+  forall (serve : nat -> url -> response) (resolve : url -> str -> option url) (c : cfg)
+         (cb_fail : nat -> bool) (u : url) (fuel : nat) cbu found size items,
+    c_kind c = KReferrers -> (0 < fuel)%nat ->
+    (forall i rq, rs_status (serve i rq) = 404 /\ rs_name_unknown (serve i rq) = false) ->
+    let api := loop serve resolve cb_fail c fuel 0 0 u [] in
+    let ts := fun k => tag_schema (c_limit c) found size items (c_at c) (fun j => cb_fail (k + j)%nat) in
+    let w := referrers_wrap RUnknown cbu api ts in
+    length (w_reqs w) = 1%nat /\ w_fell_back w = true /\ w_state w = RUnsupported /\
+    w_pages w = fst (ts 0%nat) /\ w_out w = snd (ts 0%nat).
+Proof.
+  intros serve resolve c cb_fail u fuel cbu found size items K Hf H404. cbv zeta.
+  destruct fuel as [|fuel]; [lia|]. cbn [loop]. cbv zeta.
+  destruct (H404 0%nat (mk_request c u [])) as [S N].
+  assert (E : handle c (serve 0%nat (mk_request c u [])) = inl ErrUnsupported).
+  { rewrite (handle_404 c _ K S). now rewrite N. }
+  rewrite E. unfold referrers_wrap. cbn [t_out unsupported_class no_pages t_pages andb t_reqs w_reqs w_fell_back w_state w_pages w_out length].
+  auto.
 Qed.
